@@ -363,7 +363,7 @@ func ParseJSON(s string) (any, error) {
 
 // Fault is a document derived from a valid one by exactly one injected fault.
 type Fault struct {
-	Class string `json:"class"` // undeclared_key | required_removed | null_for_required | wrong_type | bound_violated | length_violated
+	Class string `json:"class"` // undeclared_key | required_removed | null_for_required | wrong_type | bound_violated | length_violated | defaulted_removed (not a fault: see Faults)
 	Path  string `json:"path"`  // path of the fault in cog's validation path syntax (a.b[2].c, m[key].x)
 	Depth int    `json:"depth"`
 	// Context: containers on the way (array, map, optional, ref, union)
@@ -535,6 +535,13 @@ func (g *faultGen) walk(v any, t T, steps []step, kinds []string, ctx []string) 
 			if present && f.Required && f.Type.Default == nil && g.m.Resolve(f.Type).Default == nil && !(g.f == CUE && cueFillsIn(f.Type)) {
 				mutated := setAt(g.root, fsteps, func(parent any, last step) { delete(parent.(map[string]any), last.key) })
 				g.emit("required_removed", fsteps, fkinds, fctx, mutated)
+			}
+			// ... such a document is VALID where the schema language itself fills
+			// the default in (CUE): class defaulted_removed, which is not a fault
+			// but a second valid document
+			if present && f.Required && (f.Type.Default != nil || g.m.Resolve(f.Type).Default != nil) {
+				mutated := setAt(g.root, fsteps, func(parent any, last step) { delete(parent.(map[string]any), last.key) })
+				g.emit("defaulted_removed", fsteps, fkinds, fctx, mutated)
 			}
 			if present && f.Required && !f.Type.Nullable && f.Type.Kind != KAny && f.Type.Const == nil {
 				mutated := setAt(g.root, fsteps, func(parent any, last step) { parent.(map[string]any)[last.key] = nil })
